@@ -123,7 +123,7 @@ CLAIMED = {
         "raw text without % and TAB/LF/CR that does not end in a backslash is lexed as one TEXT token and parses back to "
         "itself (parse_print_text), and %T(<literal>) with any string not ending in a backslash and either quote mark "
         "parses to a tag with exactly that string as argument (parse_print_string_arg: the closing quote is the first "
-        "unprotected one). The round trip for arbitrary TREES is checked by correspondence (not a theorem): 30 000 "
+        "unprotected one), %T(<digits of n>) to the integer n (parse_print_nat_arg). The round trip for arbitrary TREES is checked by correspondence (not a theorem): 30 000 "
         "generated trees per run are printed by the model's printer and by an independent Python printer, parsed by "
         "the real parser and by the model, and compared with the tree; accepted strings are re-lexed with a collecting "
         "listener (nothing dropped); CLI runs check that text+argument reach the generated name verbatim.",
